@@ -84,7 +84,7 @@ type VC struct {
 	dset  map[string]bool
 	facts []Fact
 	obls  []*Obl
-	n     int
+	ctr   *int // shared counter: fresh names and fact/obligation sequence numbers
 
 	comps    map[string]*Comp
 	vals     map[ssa.Value]Term
@@ -120,6 +120,13 @@ type VC struct {
 	useRoot     bool
 	revealed    map[string]bool // opaque spec functions revealed in this VC
 	revealAll   bool
+	// inlining of contract-less repo callees
+	inl      bool
+	posBlk   int
+	pfx      string
+	inlDepth int
+	rets     []inlRet
+	entrySeq int
 	localAllocs map[*ssa.Alloc]string // non-escaping struct allocations -> private component space
 	writeRoot   ssa.Value // allocation the current store goes to (nil: unknown / pre-existing memory)
 	nonFresh    map[int]map[string]bool   // block -> comps written at possibly pre-existing references
@@ -127,8 +134,8 @@ type VC struct {
 }
 
 func (vc *VC) fresh(prefix string) string {
-	vc.n++
-	return fmt.Sprintf("%s_%d", prefix, vc.n)
+	(*vc.ctr)++
+	return fmt.Sprintf("%s_%d", prefix, (*vc.ctr))
 }
 
 func (vc *VC) declare(line, name string) {
@@ -154,10 +161,11 @@ func (vc *VC) assume(text string) {
 		return
 	}
 	g := vc.reach[vc.curBlk]
+	(*vc.ctr)++
 	if g == "" || g == "true" {
-		vc.facts = append(vc.facts, Fact{blk: vc.curBlk, idx: vc.curIdx, text: text})
+		vc.facts = append(vc.facts, Fact{blk: vc.wblk(), idx: *vc.ctr, text: text})
 	} else {
-		vc.facts = append(vc.facts, Fact{blk: vc.curBlk, idx: vc.curIdx, text: fmt.Sprintf("(=> %s %s)", g, text)})
+		vc.facts = append(vc.facts, Fact{blk: vc.wblk(), idx: *vc.ctr, text: fmt.Sprintf("(=> %s %s)", g, text)})
 	}
 }
 
@@ -167,7 +175,11 @@ func (vc *VC) global(text string) {
 }
 
 func (vc *VC) oblige(name, kind, cond, detail string, pos token.Pos) {
-	o := &Obl{Name: name, Kind: kind, Detail: detail, blk: vc.curBlk, idx: vc.curIdx, Guard: vc.reach[vc.curBlk], Cond: cond}
+	(*vc.ctr)++
+	if vc.inl {
+		name = "inl[" + vc.fn.Name() + "]/" + name
+	}
+	o := &Obl{Name: name, Kind: kind, Detail: detail, blk: vc.wblk(), idx: *vc.ctr, Guard: vc.reach[vc.curBlk], Cond: cond}
 	if pos.IsValid() {
 		p := vc.eng.Prog.Fset.Position(pos)
 		o.Pos = fmt.Sprintf("%s:%d", strings.TrimPrefix(p.Filename, vc.eng.RepoDir+"/"), p.Line)
@@ -361,26 +373,35 @@ func (vc *VC) havocComp(key, sort string) string {
 	return name
 }
 
-func (vc *VC) noteWrite(key string) {
-	if vc.written[vc.curBlk] == nil {
-		vc.written[vc.curBlk] = map[string]bool{}
+// wblk: the block (rpo position in the outermost function) the current program point belongs to.
+func (vc *VC) wblk() int {
+	if vc.inl {
+		return vc.posBlk
 	}
-	vc.written[vc.curBlk][key] = true
+	return vc.curBlk
+}
+
+func (vc *VC) noteWrite(key string) {
+	wb := vc.wblk()
+	if vc.written[wb] == nil {
+		vc.written[wb] = map[string]bool{}
+	}
+	vc.written[wb][key] = true
 	if key == "top" || strings.HasPrefix(key, "ghost|") {
 		return
 	}
-	if vc.writeRoot == nil {
-		if vc.nonFresh[vc.curBlk] == nil {
-			vc.nonFresh[vc.curBlk] = map[string]bool{}
+	if vc.writeRoot == nil || vc.inl {
+		if vc.nonFresh[wb] == nil {
+			vc.nonFresh[wb] = map[string]bool{}
 		}
-		vc.nonFresh[vc.curBlk][key] = true
+		vc.nonFresh[wb][key] = true
 		return
 	}
 	if ins, ok := vc.writeRoot.(ssa.Instruction); ok && ins.Block() != nil {
-		if vc.freshRoots[vc.curBlk] == nil {
-			vc.freshRoots[vc.curBlk] = map[string][]int{}
+		if vc.freshRoots[wb] == nil {
+			vc.freshRoots[wb] = map[string][]int{}
 		}
-		vc.freshRoots[vc.curBlk][key] = append(vc.freshRoots[vc.curBlk][key], ins.Block().Index)
+		vc.freshRoots[wb][key] = append(vc.freshRoots[wb][key], ins.Block().Index)
 	}
 }
 
@@ -408,9 +429,9 @@ func allocRoot(v ssa.Value) ssa.Value {
 }
 
 func (vc *VC) havocAll() {
-	vc.n++
-	vc.heap = Heap{m: map[string]string{}, epoch: vc.n}
-	vc.wroteAll[vc.curBlk] = true
+	(*vc.ctr)++
+	vc.heap = Heap{m: map[string]string{}, epoch: (*vc.ctr)}
+	vc.wroteAll[vc.wblk()] = true
 }
 
 func fieldComp(st types.Type, f *types.Var) string {
@@ -847,7 +868,7 @@ func (vc *VC) findLocalAllocs() {
 			}
 			if onlyLocalUses(al, 0) {
 				n++
-				vc.localAllocs[al] = fmt.Sprintf("L%d|", n)
+				vc.localAllocs[al] = fmt.Sprintf("L%s%d|", vc.pfx, n)
 			}
 		}
 	}
@@ -864,4 +885,10 @@ func (vc *VC) spaceOf(v ssa.Value) string {
 		}
 	}
 	return ""
+}
+
+type inlRet struct {
+	guard   string
+	results []Term
+	heap    Heap
 }
